@@ -210,6 +210,7 @@ class Table:
         if old is None or level > self.level[key]:
             self.decl[key] = d
             self.level[key] = level
+            self.ambiguous.discard(key)
             self._memo.clear()
         elif old != d and level == self.level[key]:
             self.ambiguous.add(key)
